@@ -14,7 +14,8 @@ def writable(h):
 
 
 def norm(ls):
-    return [(c, t == "N") for c, t in ls]
+    """a line as a diff carries it: its bytes including the CR of a CRLF line end, and whether it is marked as unterminated"""
+    return [(c + (b"\r" if t == "C" else b""), t == "N") for c, t in ls]
 
 
 def parse_hunks_from_resp(x):
@@ -37,7 +38,9 @@ def parse_hunks_from_resp(x):
 def run(R):
     if not R.build():
         return
-    R.lean(["C13U", "C13C"])
+    R.lean(["C13U", "C13C", "C03Loop"])
+    import hunted
+    hunted.run(R, "C13")
     quick = R.tier == "quick"
     rng = R.rng
     # T5: formatter on every interleaving up to length 5 (exhaustive) with marker placements, plus random hunks
